@@ -33,6 +33,8 @@ impl EventSubscriber {
     }
 
     pub fn subscribe(self, c: CoroutineImpl) {
+        #[cfg(may_verif)]
+        crate::verif::co_resume(false, get_co_local(&c) as usize);
         let resource = unsafe { &mut *self.resource };
         resource.subscribe(c);
     }
@@ -519,9 +521,13 @@ pub fn park_timeout(dur: Duration) {
 /// run the coroutine
 #[inline]
 pub(crate) fn run_coroutine(mut co: CoroutineImpl) {
+    #[cfg(may_verif)]
+    crate::verif::co_resume(true, get_co_local(&co) as usize);
     match co.resume() {
         Some(ev) => ev.subscribe(co),
         None => {
+            #[cfg(may_verif)]
+            crate::verif::co_resume(false, get_co_local(&co) as usize);
             // panic happened here
             let local = unsafe { &mut *get_co_local(&co) };
             let join = local.get_join();
